@@ -22,6 +22,8 @@ fn lca_pair<S: Storage>(
     let mut left_seg = storage.get_segment(left)?;
     let mut right_seg = storage.get_segment(right)?;
     while left != right {
+        #[cfg(aranya_verif)]
+        crate::verif::tick();
         // The command with the lower max cut could be our least common ancestor
         // so we keep following the command with the higher max cut until both
         // sides converge.
@@ -65,7 +67,10 @@ pub(super) fn last_common_ancestor<S: Storage>(
 /// Number of Location entries per braid buffer block. Sized to batch
 /// disk I/O into reasonably large writes without holding too many
 /// entries in memory per spill.
+#[cfg(not(aranya_verif_knobs))]
 const BRAID_BLOCK_ENTRIES: usize = 256;
+#[cfg(aranya_verif_knobs)]
+const BRAID_BLOCK_ENTRIES: usize = 4;
 
 /// Accumulates braid locations and iterates them in reverse push order.
 pub(super) struct BraidResult<F> {
@@ -93,6 +98,8 @@ impl<F: Spill> BraidResult<F> {
     }
 
     fn flush_to_disk(&mut self) -> Result<(), ClientError> {
+        #[cfg(aranya_verif)]
+        crate::verif::probe("braid.spill");
         let offset = self
             .spill_len
             .checked_mul(size_of::<Location>())
@@ -144,6 +151,8 @@ impl<'a, F: Spill> BraidIter<'a, F> {
     }
 
     fn load_prev_block(&mut self) -> Result<(), ClientError> {
+        #[cfg(aranya_verif)]
+        crate::verif::probe("braid.reload");
         let count = self.disk_remaining.min(BRAID_BLOCK_ENTRIES);
         let start = self
             .disk_remaining
@@ -247,6 +256,8 @@ where
 
     // Get latest command
     while let Some(strand) = strands.pop() {
+        #[cfg(aranya_verif)]
+        crate::verif::tick();
         // Consume another command off the strand
         let (prior, mut maybe_cached_segment) =
             if let Some(previous) = strand.segment.previous(strand.next) {
